@@ -377,6 +377,55 @@ def shard(idx, n, seed, tier, params):
             mn, form, v, pc, _ = m
             exp = isa.encode(mn, form, v, pc)
             judge(acc, "rand", "pc=$%x: %s" % (pc, src), exp, r, [mn_group(mn), form, vclass(v)], ("rand", mn, form, v, pc))
+    # (5) the same source statement emitted several times (macro body, loop body) with operands on both sides of the
+    #     zero-page/absolute boundary, and operands that are symbols - also symbols spelled like a register
+    rng = rng_for(seed, "c01reemit", idx)
+    srcs, meta = [], []
+    zpabs = [(mn, form) for mn in isa.MNEMONICS if mn not in isa.BRANCHES for form in ("v", "v,x", "v,y")
+             if isa.encode(mn, form, 0x10, BASE) is not None and isa.encode(mn, form, 0x1234, BASE) is not None]
+    anyform = [(mn, form) for mn in isa.MNEMONICS if mn not in isa.BRANCHES for form in isa.FORM_NAMES[1:] if isa.encode(mn, form, 0x10, BASE) is not None]
+    for _ in range(params["reemit"] // n):
+        style = rng.randrange(4)
+        if style == 0:
+            mn, form = rng.choice(zpabs)
+            vals = [rng.choice([rng.randrange(0, 256), rng.randrange(256, 65536), 255, 256]) for _ in range(rng.randrange(2, 5))]
+            pname = rng.choice(["v", "addr", "a", "x", "y", "A", "p"])
+            src = ".macro put(%s) { %s }\n" % (pname, isa.render(mn, form, pname)) + "\n".join("put(%s)" % lit(v, rng.choice(["dec", "hex"])) for v in vals)
+            exp = [isa.encode(mn, form, v, BASE) for v in vals]
+            sig = [mn_group(mn), form, "macro-reinvoked"]
+        elif style == 1:
+            mn, form = rng.choice(zpabs)
+            start, cnt = rng.randrange(250, 256), rng.randrange(2, 9)
+            down = rng.random() < 0.5
+            expr = "%d - index" % (start + cnt) if down else "%d + index" % start
+            vals = [(start + cnt - i) if down else (start + i) for i in range(cnt)]
+            src = ".loop %d { %s }" % (cnt, isa.render(mn, form, expr))
+            exp = [isa.encode(mn, form, v, BASE) for v in vals]
+            sig = [mn_group(mn), form, "loop-reemitted"]
+        else:
+            mn, form = rng.choice(anyform)
+            name = rng.choice(["a", "x", "y", "A", "X", "Y", "a1", "ax", "s", "sp", "pc", "p", "acc"])
+            v = rng.choice([rng.randrange(0, 256), rng.randrange(256, 65536), 255, 256])
+            if isa.encode(mn, form, v, BASE) is None:
+                v = rng.randrange(0, 256)
+            if style == 2:
+                src = ".const %s = %s\n%s" % (name, lit(v, "hex"), isa.render(mn, form, name))
+                exp = [isa.encode(mn, form, v, BASE)]
+                sig = [mn_group(mn), form, "symbol-operand|%s" % ("register-like" if name.lower() in ("a", "x", "y") else "plain")]
+            else:
+                # a label behind the instruction: its address is the operand (absolute form where there is one)
+                ins_len = len(isa.encode(mn, form, 0x2003, BASE) or b"")
+                if ins_len != 3:
+                    continue
+                src = "%s\n%s: nop" % (isa.render(mn, form, name), name)
+                exp = [isa.encode(mn, form, BASE + 3, BASE), bytes([0xEA])]
+                sig = [mn_group(mn), form, "label-operand|%s" % ("register-like" if name.lower() in ("a", "x", "y") else "plain")]
+        if any(e is None for e in exp):
+            continue
+        srcs.append(src)
+        meta.append((b"".join(exp), sig))
+    for (src, (exp, sig)), r in zip(zip(srcs, meta), ask_batch(probe, srcs)):
+        judge(acc, "reemit", src, exp, r, sig, ("reemit", src))
     probe.close()
     return acc
 
@@ -384,7 +433,7 @@ def shard(idx, n, seed, tier, params):
 def main(tier, seed):
     t0 = time.time()
     params = {"budget": 100 if tier == "quick" else 1500, "pair_sample": 150000 if tier == "quick" else 0,
-              "random": 20000 if tier == "quick" else 200000}
+              "random": 20000 if tier == "quick" else 200000, "reemit": 12000 if tier == "quick" else 120000}
     acc = run_sharded(shard, seed, tier, params)
     exhaustive = acc.counts.get("pair.budget_cut", 0) == 0
     return finish(
@@ -392,7 +441,8 @@ def main(tier, seed):
         rule="rows: all 56 mnemonics x 10 syntactic forms x 11 boundary values x 3 radixes (complete); branches: 8 mnemonics x "
              "distance -140..140 x {literal, *-relative, label before/after, scope -/+} (complete); pairs: ordered pairs of statement "
              "forms x 4 separators (thorough: all 1125 forms squared; quick: representative mnemonics squared + seeded sample of "
-             "the full space); random operand values/expressions at several base addresses. Non-trivial = a distinct LEGAL case "
+             "the full space); random operand values/expressions at several base addresses; re-emitted statements: a macro body invoked with, and a loop body "
+             "indexed over, operands on both sides of 255/256, and operands that are constants or labels (also named like a register: a, x, y). Non-trivial = a distinct LEGAL case "
              "(exact bytes are compared); illegal cases only need a diagnostic.",
         assumptions=["negative operands are observed but not judged (the suite pins `lda #1-2` = A9 FF); operands above 65535 are judged partially: immediates, one-byte-only forms and undefined combinations must be rejected, the zero-page encoding must never be chosen, and where an absolute form exists either a rejection or the pinned 16-bit wrap-around (`lda $ffff+3` = AD 02 00) is accepted",
                      "isa6502.py (151 opcodes, written from the ISA) is trusted"],
